@@ -89,6 +89,12 @@ var c20Helpers = []c20Helper{
 		}
 		return ""
 	}},
+	{"NotEmpty/IsNil(holder)", []string{"list", "prop"}, func(it ap.Item) string {
+		// the emptiness tests walk what they are given: a nil inside a list or a property is nothing to trip over
+		_ = ap.NotEmpty(it)
+		_ = ap.IsNil(it)
+		return ""
+	}},
 	{"ItemsEqual(x,nil)", []string{"top"}, func(it ap.Item) string {
 		if !ap.ItemsEqual(it, nil) || !ap.ItemsEqual(nil, it) {
 			return "not equal to nil"
@@ -319,6 +325,12 @@ func c20Place(n c20Nil, pos string) ap.Item {
 		return &ap.Actor{ID: "https://example.com/actors/jdoe", Type: ap.PersonType, Inbox: n.it, Outbox: n.it, Liked: n.it, Following: n.it, Followers: n.it, Likes: n.it, Shares: n.it, Replies: n.it}
 	case "list1":
 		return ap.ItemCollection{n.it}
+	case "list-after-object":
+		// behind an embedded object and behind a link: helpers that walk a list through a typed view stop at the first member they cannot
+		// view (an IRI in front hides what comes after it)
+		return ap.ItemCollection{c20Real(), n.it}
+	case "list-after-link":
+		return ap.ItemCollection{&ap.Link{Type: ap.MentionType, Href: "https://example.com/mentioned"}, n.it, c20Real()}
 	case "prop-list1":
 		// a one-member list as the value of item-typed and list-typed properties (one-member lists are written compacted)
 		return &ap.Activity{ID: "https://example.com/act", Type: ap.CreateType, Object: ap.ItemCollection{n.it}, AttributedTo: ap.ItemCollection{n.it}, Audience: ap.ItemCollection{n.it},
@@ -364,7 +376,7 @@ func c20Cells() []c20Cell {
 		positions := append([]string{}, h.positions...)
 		for _, p := range h.positions {
 			if p == "list" {
-				positions = append(positions, "list1")
+				positions = append(positions, "list1", "list-after-object", "list-after-link")
 			}
 			if p == "prop" {
 				positions = append(positions, "prop-list1")
